@@ -103,30 +103,52 @@ def specRow (e : Endpoint) : Option SpecRow :=
     if e.template.isEmpty then some ⟨e.op, e.guard, e.verb, [], e.body, e.headers, e.pass, e.post⟩
     else (zipSegs segs e.args).map fun p => ⟨e.op, e.guard, e.verb, p, e.body, e.headers, e.pass, e.post⟩
 
-/-! ## table theorems (about the regenerated `Gen.Mgmt.ops`) -/
+/-! ## table theorems (about the regenerated `Gen.Mgmt.ops`)
+
+Each table fact `T : P` is checked as `T_check = true` by kernel evaluation (`decide +kernel`) of an
+irreducible Boolean `T_check := decide P`, and `T` is then read off it.  (This way a fact that has
+become false after a source change fails within a second: the elaborator cannot start to
+re-evaluate the table for its error message.) -/
+
+@[irreducible] def all_names_quoted_check : Bool :=
+  decide (∀ e ∈ Gen.Mgmt.ops, ∀ a ∈ e.args, a.enc = some "")
+theorem all_names_quoted_kernel : all_names_quoted_check = true := by decide +kernel
 
 /-- **Every name that goes into a URL path goes through `quote(name, '')`** (safe set empty), for
     every HTTP call site of every public operation. -/
 theorem all_names_quoted : ∀ e ∈ Gen.Mgmt.ops, ∀ a ∈ e.args, a.enc = some "" := by
-  decide +kernel
+  have h := all_names_quoted_kernel; unfold all_names_quoted_check at h; exact of_decide_eq_true h
+
+@[irreducible] def table_matches_spec_check : Bool :=
+  decide (Gen.Mgmt.ops.map specRow = Spec.endpoints.map some)
+theorem table_matches_spec_kernel : table_matches_spec_check = true := by decide +kernel
 
 /-- Every call site is a documented endpoint: same verb, same path segments with the same
     parameter in each name position, same JSON payload members carrying the same arguments, same
     extra headers, same pass-through of `name/use_regex/page_size`; and every documented endpoint
     of the table has its call site (the two lists are equal row by row). -/
 theorem table_matches_spec : Gen.Mgmt.ops.map specRow = Spec.endpoints.map some := by
-  decide +kernel
+  have h := table_matches_spec_kernel; unfold table_matches_spec_check at h; exact of_decide_eq_true h
+
+@[irreducible] def verbs_known_check : Bool :=
+  decide (∀ e ∈ Gen.Mgmt.ops, (httpMethod e).isSome = true ∨
+    e.verb ∈ ["call:ManagementApi.nodes", "call:Exchange.get", "call:Queue.get"])
+theorem verbs_known_kernel : verbs_known_check = true := by decide +kernel
 
 /-- the HTTP method on the wire is one of the four documented ones for every row that sends a
     request (delegating rows send none themselves) -/
 theorem verbs_known : ∀ e ∈ Gen.Mgmt.ops,
     (httpMethod e).isSome = true ∨
       e.verb ∈ ["call:ManagementApi.nodes", "call:Exchange.get", "call:Queue.get"] := by
-  decide +kernel
+  have h := verbs_known_kernel; unfold verbs_known_check at h; exact of_decide_eq_true h
+
+@[irreducible] def request_constants_check : Bool :=
+  decide (Gen.Mgmt.pathPrefix = "api/" ∧ Gen.Mgmt.contentType = "application/json")
+theorem request_constants_kernel : request_constants_check = true := by decide +kernel
 
 /-- the URL prefix and content type of `HTTPClient._request` -/
 theorem request_constants : Gen.Mgmt.pathPrefix = "api/" ∧ Gen.Mgmt.contentType = "application/json" := by
-  decide
+  have h := request_constants_kernel; unfold request_constants_check at h; exact of_decide_eq_true h
 
 /-! ## quoting -/
 
@@ -155,9 +177,15 @@ theorem quote_injective (s t : Text) (h : quote "" s = quote "" t) : utf8 s = ut
 
 /-! ## the request URL -/
 
+@[irreducible] def templates_wellformed_check : Bool :=
+  decide (∀ e ∈ Gen.Mgmt.ops, templateOk e = true)
+theorem templates_wellformed_kernel : templates_wellformed_check = true := by decide +kernel
+
 /-- every path template of the table consists of clean literal segments and `%s` segments, one per
     argument -/
-theorem templates_wellformed : ∀ e ∈ Gen.Mgmt.ops, templateOk e = true := by decide +kernel
+theorem templates_wellformed : ∀ e ∈ Gen.Mgmt.ops, templateOk e = true := by
+  have h := templates_wellformed_kernel; unfold templates_wellformed_check at h
+  exact of_decide_eq_true h
 
 /-- The full claim about the URL: for *every* tuple of names the path of the prepared URL, split
     at `/`, is the base directory, `api`, and the template's segments with each `%s` replaced by
@@ -242,7 +270,7 @@ theorem segments_exact_partial (base : Base) (e : Endpoint) (env : Env) (names :
   -- the path handed to the HTTP client, and the relative reference
   have hpath : path e env = .ok (joinWith '/' qs) := by
     simp only [path, argTexts_quoted env hq, fill_parsed hparse, hinst, Option.map_some]
-  have hprefix : Gen.Mgmt.pathPrefix.toList = "api/".toList := by decide
+  have hprefix : Gen.Mgmt.pathPrefix.toList = "api/".toList := by rw [request_constants.1]
   have hrelEq : Gen.Mgmt.pathPrefix.toList ++ joinWith '/' qs = joinWith '/' ("api".toList :: qs) := by
     rw [hprefix, joinWith_cons_ne _ _ _ hqne]; rfl
   have hchars : (joinWith '/' ("api".toList :: qs)).all pathChar = true := by
@@ -308,32 +336,39 @@ theorem segments_exact_table (base : Base) (e : Endpoint) (he : e ∈ Gen.Mgmt.o
   have hq : All2 (Resolves env) e.args names := all2_resolves (all_names_quoted e he) hres
   exact segments_exact_partial base e env names hq (templates_wellformed e he) hnames hbase hdirs
 
+/-- the witness against `SegmentsExact`, evaluated on the regenerated table: `Queue.delete` has the
+    two quoted arguments, template `queues/%s/%s`, and for queue `..` on vhost `/` the prepared
+    URL is `http://h/api/queues/` -/
+@[irreducible] def dotWitness_check : Bool :=
+  match findOp "Queue.delete" "" with
+  | some e =>
+    decide (e.args = [⟨some "", ["virtual_host"]⟩, ⟨some "", ["queue"]⟩]) &&
+    decide (parseTemplate e.template.toList = some [.lit "queues".toList, .hole, .hole]) &&
+    decide ((url ⟨"http://h".toList, []⟩ e
+      [("queue", "..".toList), ("virtual_host", "/".toList)]).toOption =
+        some "http://h/api/queues/".toList)
+  | none => false
+theorem dotWitness_kernel : dotWitness_check = true := by decide +kernel
+
 /-- `SegmentsExact` is false of the code: `Queue.delete('..')` on vhost `/` requests
     `/api/queues/` (urljoin removes the dot segment together with the vhost segment).
     Recorded as known finding `C19/segment-lost/empty-or-dot-name`. -/
 theorem not_segmentsExact : ¬ SegmentsExact := by
   intro h
-  have he : (findOp "Queue.delete" "").isSome = true := by decide +kernel
-  obtain ⟨e, hfind⟩ := Option.isSome_iff_exists.1 he
+  have hw := dotWitness_kernel
+  unfold dotWitness_check at hw
+  split at hw
+  case h_2 => cases hw
+  rename_i e hfind
+  simp only [Bool.and_eq_true, decide_eq_true_eq] at hw
+  obtain ⟨⟨hargs, htplE⟩, hurl⟩ := hw
   have hmem : e ∈ Gen.Mgmt.ops := List.mem_of_find?_eq_some hfind
   let env : Env := [("queue", "..".toList), ("virtual_host", "/".toList)]
   let base : Base := ⟨"http://h".toList, []⟩
-  have hargs : e.args = [⟨some "", ["virtual_host"]⟩, ⟨some "", ["queue"]⟩] := by
-    have : (findOp "Queue.delete" "").map (·.args) =
-        some [⟨some "", ["virtual_host"]⟩, ⟨some "", ["queue"]⟩] := by decide +kernel
-    rw [hfind] at this; exact Option.some.inj this
   have hres : All2 (Resolves env) e.args ["/".toList, "..".toList] := by
     rw [hargs]
     exact .cons ⟨rfl, by decide⟩ (.cons ⟨rfl, by decide⟩ .nil)
   obtain ⟨segs, qs, hp, hi, hu⟩ := h base e env _ hmem hres (by decide) (by decide)
-  have hurl : (findOp "Queue.delete" "").map (fun e => (url base e env).toOption) =
-      some (some "http://h/api/queues/".toList) := by decide +kernel
-  rw [hfind] at hurl
-  simp only [Option.map_some, Option.some.injEq] at hurl
-  have htplE : (findOp "Queue.delete" "").map (fun e => parseTemplate e.template.toList) =
-      some (some [.lit "queues".toList, .hole, .hole]) := by decide +kernel
-  rw [hfind] at htplE
-  simp only [Option.map_some, Option.some.injEq] at htplE
   have hsegs : segs = [.lit "queues".toList, .hole, .hole] := by
     rw [hp] at htplE; exact Option.some.inj htplE
   subst hsegs
@@ -402,17 +437,26 @@ def NothingElseEscapes : Prop :=
   ∀ e ∈ Gen.Mgmt.ops, ∀ (paginated documented : Bool) (t : Transport) (c : String),
     callOutcome (postKind e paginated) documented t ≠ some (.escaped c)
 
+/-- the witness against `NothingElseEscapes` on the regenerated table: `Basic.get` iterates the
+    client's result -/
+@[irreducible] def escapeWitness_check : Bool :=
+  match findOp "Basic.get" "" with
+  | some e => decide (postKind e false = .iterates)
+  | none => false
+theorem escapeWitness_kernel : escapeWitness_check = true := by decide +kernel
+
 /-- The code does not satisfy it: `Basic.get` on a 200 response without a JSON body raises
     TypeError (`for message in None`).  Recorded as known finding
     `C19/escape/TypeError/iterating-bodyless-2xx`. -/
 theorem not_nothingElseEscapes : ¬ NothingElseEscapes := by
   intro h
-  have he : (findOp "Basic.get" "").isSome = true := by decide
-  obtain ⟨e, hfind⟩ := Option.isSome_iff_exists.1 he
+  have hw := escapeWitness_kernel
+  unfold escapeWitness_check at hw
+  split at hw
+  case h_2 => cases hw
+  rename_i e hfind
+  have hpost : postKind e false = .iterates := of_decide_eq_true hw
   have hmem : e ∈ Gen.Mgmt.ops := List.mem_of_find?_eq_some hfind
-  have hpost : postKind e false = .iterates := by
-    have : ((findOp "Basic.get" "").map (postKind · false)) = some .iterates := by decide
-    rw [hfind] at this; exact Option.some.inj this
   have := h e hmem false false (.response 200 .notJson) "TypeError"
   rw [hpost] at this
   exact this (by decide)
@@ -443,22 +487,31 @@ theorem nothing_else_escapes_partial (e : Endpoint) (paginated : Bool) (t : Tran
       · simp [callOutcome, hs]
       · simp [callOutcome, hc]
 
+@[irreducible] def iterating_ops_check : Bool :=
+  decide ((Gen.Mgmt.ops.filter (fun e => e.post ≠ "")).map (·.op) =
+    ["ManagementApi.top", "ManagementApi.top", "Basic.get"])
+theorem iterating_ops_kernel : iterating_ops_check = true := by decide +kernel
+
 /-- which operations iterate the client's result (by the regenerated table) -/
 theorem iterating_ops :
     (Gen.Mgmt.ops.filter (fun e => e.post ≠ "")).map (·.op) =
-      ["ManagementApi.top", "ManagementApi.top", "Basic.get"] := by decide
+      ["ManagementApi.top", "ManagementApi.top", "Basic.get"] := by
+  have h := iterating_ops_kernel; unfold iterating_ops_check at h; exact of_decide_eq_true h
 
 /-! ## Non-vacuity -/
 example : quote "" "a/b ?#%é".toList = "a%2Fb%20%3F%23%25%C3%A9".toList := by decide +kernel
 example : pctDecode "a%2Fb%20%3F%23%25%C3%A9".toList = some (utf8 "a/b ?#%é".toList) := by
   decide +kernel
-example : (findOp "Queue.get" "").bind (fun e => (url ⟨"http://h:15672".toList, []⟩ e
+/-- concrete requests computed by the model on the regenerated table -/
+@[irreducible] def urlExamples_check : Bool :=
+  decide ((findOp "Queue.get" "").bind (fun e => (url ⟨"http://h:15672".toList, []⟩ e
       [("queue", "a/b".toList), ("virtual_host", "/".toList)]).toOption) =
-    some "http://h:15672/api/queues/%2F/a%2Fb".toList := by decide +kernel
-example : (findOp "Queue.unbind" "").bind (fun e => (url ⟨"https://mq.example".toList, "/r/".toList⟩ e
+    some "http://h:15672/api/queues/%2F/a%2Fb".toList) &&
+  decide ((findOp "Queue.unbind" "").bind (fun e => (url ⟨"https://mq.example".toList, "/r/".toList⟩ e
       [("queue", "q?".toList), ("exchange", "é#".toList), ("routing_key", "k/1".toList),
        ("virtual_host", "v h".toList)]).toOption) =
-    some "https://mq.example/r/api/bindings/v%20h/e/%C3%A9%23/q/q%3F/k%2F1".toList := by decide +kernel
+    some "https://mq.example/r/api/bindings/v%20h/e/%C3%A9%23/q/q%3F/k%2F1".toList)
+example : urlExamples_check = true := by decide +kernel
 example : request (.response 404 .errorObject) = .apiError 404 ∧
     request (.response 200 .object) = .returned .object ∧
     request (.response 204 .notJson) = .returned .none := by decide
